@@ -150,4 +150,16 @@ CHECKS = {
         note="Trusted base: g++ 12 (-std=c++11), the prelude declaring the named types, the generator's model. "
              "gen_decl(attrs=False) is compiled after removing the parameter attributes it still prints.",
     ),
+    "C11": dict(
+        level="exploration",
+        technique="property-based differential testing across three compilers: Hypothesis enum declarations, values "
+                  "printed by g++ (original), gcc (generated header) and gfortran (generated module)",
+        design_ref="DESIGN.md section 4, C11",
+        text="Enum declarations over the accepted expression grammar (explicit/implicit members, references to earlier "
+             "members, unary signs, parentheses, octal and decimal literals, plain and scoped, library/namespace/class "
+             "scope) are wrapped 20 per YAML; every enumerator is looked up under its documented C and Fortran name and "
+             "its value as printed by gcc and gfortran must equal the value g++ assigns to the original.",
+        note="Trusted base: the three GNU 12 compilers. Values are bounded to +-2^20 by construction. The generator's own "
+             "value model is cross-checked against g++ (disagreement is a harness error).",
+    ),
 }
